@@ -49,6 +49,13 @@ fn h_validate<const L: usize, S: Src>(s: &mut S) {
     assert!(tag == spec, "tag::name accepts exactly what git check-ref-format --allow-onelevel accepts");
     let partial = gix_validate::reference::name_partial(b[..].as_bstr()).is_ok();
     assert!(partial == spec, "reference::name_partial accepts exactly git's names");
+    s.reach();
+}
+/// reference::name: git's names that also satisfy the one-level rule (separate harness: it goes through memchr)
+fn h_validate_full<const L: usize, S: Src>(s: &mut S) {
+    let b: [u8; L] = s.bytes();
+    s.assume(!(L == 1 && b[0] == b'@'));
+    let spec = git_refname_ok(&b[..]);
     let full = gix_validate::reference::name(b[..].as_bstr()).is_ok();
     assert!(full == (spec && onelevel_ok(&b[..])), "reference::name additionally applies git's one-level rule");
     s.reach();
@@ -92,15 +99,21 @@ fn no_cpuid(_leaf: u32, _sub: u32) -> std::arch::x86_64::CpuidResult { std::arch
 fn no_cpuid1(_leaf: u32) -> std::arch::x86_64::CpuidResult { std::arch::x86_64::CpuidResult { eax: 0, ebx: 0, ecx: 0, edx: 0 } }
 
 harnesses! {
-    #[kani::proof] #[kani::unwind(4)] #[kani::stub(std::arch::x86_64::__cpuid_count, no_cpuid)] #[kani::stub(std::arch::x86_64::__cpuid, no_cpuid1)] validate_0 => h_validate::<0, _>;
-    #[kani::proof] #[kani::unwind(4)] #[kani::stub(std::arch::x86_64::__cpuid_count, no_cpuid)] #[kani::stub(std::arch::x86_64::__cpuid, no_cpuid1)] validate_1 => h_validate::<1, _>;
-    #[kani::proof] #[kani::unwind(5)] #[kani::stub(std::arch::x86_64::__cpuid_count, no_cpuid)] #[kani::stub(std::arch::x86_64::__cpuid, no_cpuid1)] validate_2 => h_validate::<2, _>;
-    #[kani::proof] #[kani::unwind(6)] #[kani::stub(std::arch::x86_64::__cpuid_count, no_cpuid)] #[kani::stub(std::arch::x86_64::__cpuid, no_cpuid1)] validate_3 => h_validate::<3, _>;
-    #[kani::proof] #[kani::unwind(7)] #[kani::stub(std::arch::x86_64::__cpuid_count, no_cpuid)] #[kani::stub(std::arch::x86_64::__cpuid, no_cpuid1)] validate_4 => h_validate::<4, _>;
-    #[kani::proof] #[kani::unwind(8)] #[kani::stub(std::arch::x86_64::__cpuid_count, no_cpuid)] #[kani::stub(std::arch::x86_64::__cpuid, no_cpuid1)] validate_5 => h_validate::<5, _>;
-    #[kani::proof] #[kani::unwind(9)] #[kani::stub(std::arch::x86_64::__cpuid_count, no_cpuid)] #[kani::stub(std::arch::x86_64::__cpuid, no_cpuid1)] validate_6 => h_validate::<6, _>;
-    #[kani::proof] #[kani::unwind(10)] #[kani::stub(std::arch::x86_64::__cpuid_count, no_cpuid)] #[kani::stub(std::arch::x86_64::__cpuid, no_cpuid1)] validate_7 => h_validate::<7, _>;
-    #[kani::proof] #[kani::unwind(11)] #[kani::stub(std::arch::x86_64::__cpuid_count, no_cpuid)] #[kani::stub(std::arch::x86_64::__cpuid, no_cpuid1)] validate_8 => h_validate::<8, _>;
+    #[kani::proof] #[kani::unwind(4)] validate_0 => h_validate::<0, _>;
+    #[kani::proof] #[kani::unwind(4)] validate_1 => h_validate::<1, _>;
+    #[kani::proof] #[kani::unwind(5)] validate_2 => h_validate::<2, _>;
+    #[kani::proof] #[kani::unwind(6)] validate_3 => h_validate::<3, _>;
+    #[kani::proof] #[kani::unwind(7)] validate_4 => h_validate::<4, _>;
+    #[kani::proof] #[kani::unwind(8)] validate_5 => h_validate::<5, _>;
+    #[kani::proof] #[kani::unwind(9)] validate_6 => h_validate::<6, _>;
+    #[kani::proof] #[kani::unwind(10)] validate_7 => h_validate::<7, _>;
+    #[kani::proof] #[kani::unwind(11)] validate_8 => h_validate::<8, _>;
+    #[kani::proof] #[kani::unwind(4)] #[kani::stub(std::arch::x86_64::__cpuid_count, no_cpuid)] #[kani::stub(std::arch::x86_64::__cpuid, no_cpuid1)] validate_full_0 => h_validate_full::<0, _>;
+    #[kani::proof] #[kani::unwind(5)] #[kani::stub(std::arch::x86_64::__cpuid_count, no_cpuid)] #[kani::stub(std::arch::x86_64::__cpuid, no_cpuid1)] validate_full_1 => h_validate_full::<1, _>;
+    #[kani::proof] #[kani::unwind(6)] #[kani::stub(std::arch::x86_64::__cpuid_count, no_cpuid)] #[kani::stub(std::arch::x86_64::__cpuid, no_cpuid1)] validate_full_2 => h_validate_full::<2, _>;
+    #[kani::proof] #[kani::unwind(7)] #[kani::stub(std::arch::x86_64::__cpuid_count, no_cpuid)] #[kani::stub(std::arch::x86_64::__cpuid, no_cpuid1)] validate_full_3 => h_validate_full::<3, _>;
+    #[kani::proof] #[kani::unwind(8)] #[kani::stub(std::arch::x86_64::__cpuid_count, no_cpuid)] #[kani::stub(std::arch::x86_64::__cpuid, no_cpuid1)] validate_full_4 => h_validate_full::<4, _>;
+    #[kani::proof] #[kani::unwind(9)] #[kani::stub(std::arch::x86_64::__cpuid_count, no_cpuid)] #[kani::stub(std::arch::x86_64::__cpuid, no_cpuid1)] validate_full_5 => h_validate_full::<5, _>;
     #[kani::proof] #[kani::unwind(4)] known_at_sign => h_known_at_sign::<_>;
     #[kani::proof] #[kani::unwind(7)] sanitize_0 => h_sanitize::<0, _>;
     #[kani::proof] #[kani::unwind(7)] sanitize_1 => h_sanitize::<1, _>;
